@@ -9,14 +9,18 @@ RULE = ("TLC enumerates, for every shape in the bound, every option selection (e
         "exact expectation (1e-12; 1e-9 with projection); the combined invocation writes to the destination drawn by the model "
         "(stdout, or -o PATH onto a fresh path, onto an older and longer file, onto the input file itself) and the bytes found "
         "there are what is compared (DestinationHoldsOnlyResult); text output at precision 6 and 12 to the printed precision. "
+        "The axis lists of -m/-M are explored as typed: every order of naming every subset of up to 4 axes, the model removing one axis "
+        "at a time in that order with the renumbering this needs (RemoveInOrder) and the invariant saying the order is immaterial. "
         "Non-trivial/distinct: distinct (shape, selection). The AnyOrder configuration must violate EqualsDocumented.")
 ASSUME = ["inputs are random positive reals; all-masked spectra normalise to NaN (0/0) in both model reading and tool",
           "projection targets per shape are two representatives, not all admissible targets (C03 covers those)"]
 
 
 def run(tier):
-    stages = [("MCView", "MCView_quick.cfg", "view")] if tier == "quick" else [
-        ("MCView", "MCView_t1.cfg", "view"), ("MCView", "MCView_t2.cfg", "view")]
+    # MCView_names: the axis lists of -m/-M are lists AS TYPED - every order of naming, removed one axis at a time in that order
+    stages = [("MCView", "MCView_quick.cfg", "view"), ("MCView", "MCView_names.cfg", "view")] if tier == "quick" else [
+        ("MCView", "MCView_t1.cfg", "view"), ("MCView", "MCView_t2.cfg", "view"), ("MCView", "MCView_names.cfg", "view")]
     return standard("C13", tier, "model_checking", RULE, ASSUME, stages,
                     sabotage=[("MCView", "MCView_abAnyOrder.cfg", ["EqualsDocumented"]),
-                              ("MCView", "MCView_abKeepTail.cfg", ["DestinationHoldsOnlyResult"])])
+                              ("MCView", "MCView_abKeepTail.cfg", ["DestinationHoldsOnlyResult"]),
+                              ("MCView", "MCView_abNamed.cfg", ["EqualsDocumented"])])
